@@ -141,4 +141,12 @@ TWINS = [
     _t("union-augmented", "accumulate dependencies with |= instead of x = x | y",
        [{"file": LC, "old": "self._depends_on = self._depends_on | other",
          "new": "self._depends_on |= other"}]),
+    # ---- whole-package rewrites ------------------------------------------------
+    _t("unparse-everything",
+       "every module replaced by ast.unparse of itself: comments gone, all line "
+       "numbers and the formatting changed, no token of the program changed",
+       [{"glob": "pytato/**/*.py", "transform": "unparse"}]),
+    _t("rename-all-locals",
+       "every local variable of every function in the package renamed (suffix _r)",
+       [{"glob": "pytato/**/*.py", "transform": "rename_all_locals"}]),
 ]
